@@ -128,9 +128,18 @@ def run_batch(modname, fname, items, extra=None, chunk=None, procs=None, wall_li
     with cf.ProcessPoolExecutor(max_workers=procs, mp_context=ctx) as ex:
         futs = [ex.submit(_worker, (modname, fname, c, extra)) for c in chunks]
         skipped = 0
+        if wall_limit:
+            # when the batch's wall-clock budget is used up, chunks that have not started are left out (and counted)
+            pending = set(futs)
+            while pending:
+                left = t0 + wall_limit - time.perf_counter()
+                if left <= 0:
+                    for f in pending:
+                        f.cancel()
+                    break
+                done, pending = cf.wait(pending, timeout=left, return_when=cf.FIRST_COMPLETED)
         for f, c in zip(futs, chunks):
-            if wall_limit and time.perf_counter() - t0 > wall_limit and f.cancel():
-                # the batch's wall-clock budget is used up: chunks that have not started are left out (and counted)
+            if f.cancelled():
                 skipped += len(c)
                 continue
             try:
